@@ -1553,6 +1553,9 @@ func Run(r *common.Run) error {
 	// ---- several sessions on one feature value ----
 	genConcurrent(r, rnd)
 	genConcMixed(r, rnd)
+	if !r.Race() {
+		genProbes(r)
+	}
 	if r.Race() {
 		return nil
 	}
@@ -2155,6 +2158,8 @@ func replayLine(r *common.Run, l string) error {
 		return out, nil
 	}
 	switch {
+	case f[0] == "gate" || f[0] == "gaterun" || f[0] == "gs2" || f[0] == "opts":
+		return replayProbe(r, l)
 	case f[0] == "concs" || f[0] == "concc" || f[0] == "concm":
 		return replayConc(r, f)
 	case f[0] == "clie" && len(f) == 7:
